@@ -264,6 +264,11 @@ def _prior(rec, name="x"):
         rs = np.random.RandomState(rec["zseed"] + 7)
         B = rs.randn(n, n) * 0.3
         return Gaussian(pm * np.ones(n), np.eye(n) + B @ B.T, name=name)
+    if k == "gauss_sqrtprec_full":
+        # given by a dense, non-triangular square root of the precision
+        rs = np.random.RandomState(rec["zseed"] + 7)
+        B = rs.randn(n, n) * 0.3
+        return Gaussian(pm * np.ones(n), sqrtprec=np.eye(n) + B, name=name)
     if k == "gmrf":
         return GMRF(pm * np.ones(n), rec.get("prior_prec", 2.0), bc_type=rec.get("bc", "zero"), name=name)
     if k == "lmrf":
@@ -415,7 +420,7 @@ def gen_exp_scenario(r, kind=None, dim_max=5):
         if r.random() < 0.3:
             k["opt_acc_rate"] = r.choice([0.5, 0.8])
     elif kind == "PCN":
-        t.update(prior=r.choice(["gauss", "gauss_vec", "gauss_full"]), m=dim + r.randint(0, 2),
+        t.update(prior=r.choice(["gauss", "gauss_vec", "gauss_full", "gauss_sqrtprec_full"]), m=dim + r.randint(0, 2),
                  prior_mean=r.choice([0.0, 0.0, 0.7]))
         k["scale"] = round(r.choice([0.05, 0.2, 0.5, 0.9]), 3)
         if r.random() < 0.7:
